@@ -437,6 +437,11 @@ func classifyCrash(stderr string) (string, bool) {
 		if strings.HasPrefix(f, "runtime.") || strings.HasPrefix(f, "panic") || strings.HasPrefix(f, "goroutine") {
 			continue
 		}
+		if len(frames) == 0 && strings.Contains(f, "verifsim/simrt/ssync.") {
+			// the lock substitute reports misuse (unlock of an unlocked mutex, negative
+			// WaitGroup counter) exactly where package sync would: the culprit is its caller
+			continue
+		}
 		frames = append(frames, f)
 	}
 	lib := false
@@ -607,7 +612,7 @@ func (d *driver) check(t0 time.Time, nomin bool) int {
 				}
 				d.runBlock(s, block, extra)
 				d.mu.Lock()
-				stop := len(d.founds) >= 8 || len(d.machinery) >= 5
+				stop := len(d.founds) >= 8 || len(d.machinery) >= 5 || len(d.stalls) >= 3
 				d.mu.Unlock()
 				if stop {
 					return
